@@ -153,48 +153,68 @@ def cfg_text(consts, init="MCInit", nxt="Next", invariants=(), props=(), constra
 # ----------------------------------------------------------------------------
 SLICES = {
     "sig": {"module": "MC_sig", "invariants": ["C01", "C02", "Refines", "Export"],
-            "consts": {"quick": {"K": 3, "Dev": "{}", "MaxL": 2}, "thorough": {"K": 4, "Dev": "{}", "MaxL": 3}},
+            "consts": {"quick": {"K": 3, "Dev": "{}", "MechBound": 99, "MaxL": 2}, "thorough": {"K": 4, "Dev": "{}", "MechBound": 99, "MaxL": 3}},
             "flip": {"quick": 5, "thorough": 1}},
     "proof": {"module": "MC_proof", "invariants": ["C03", "C04", "Refines", "Export"],
-              "consts": {"quick": {"K": 3, "Dev": "{}", "MaxL": 2, "Rich": "FALSE", "Mode": '"honest"'},
-                         "thorough": {"K": 4, "Dev": "{}", "MaxL": 3, "Rich": "TRUE", "Mode": '"honest"'}},
+              "consts": {"quick": {"K": 3, "Dev": "{}", "MechBound": 99, "MaxL": 2, "Rich": "FALSE", "Mode": '"honest"'},
+                         "thorough": {"K": 4, "Dev": "{}", "MechBound": 99, "MaxL": 3, "Rich": "TRUE", "Mode": '"honest"'}},
               "flip": {"quick": 0, "thorough": 0}},
     "proof_adv": {"module": "MC_proof", "invariants": ["C03", "C04", "Refines", "Export"],
-                  "consts": {"quick": {"K": 3, "Dev": "{}", "MaxL": 2, "Rich": "FALSE", "Mode": '"adv"'},
-                             "thorough": {"K": 4, "Dev": "{}", "MaxL": 3, "Rich": "FALSE", "Mode": '"adv"'}},
+                  "consts": {"quick": {"K": 3, "Dev": "{}", "MechBound": 99, "MaxL": 2, "Rich": "FALSE", "Mode": '"adv"'},
+                             "thorough": {"K": 4, "Dev": "{}", "MechBound": 99, "MaxL": 3, "Rich": "FALSE", "Mode": '"adv"'}},
                   "flip": {"quick": 41, "thorough": 3}},
     "update": {"module": "MC_update", "invariants": ["C01", "C02", "C12", "C12scn", "Refines", "Export"],
-               "consts": {"quick": {"K": 3, "Dev": "{}", "MaxL": 2, "Depth": 2, "CrossSuite": "FALSE"},
-                          "thorough": {"K": 4, "Dev": "{}", "MaxL": 2, "Depth": 3, "CrossSuite": "TRUE"}},
+               "consts": {"quick": {"K": 3, "Dev": "{}", "MechBound": 99, "MaxL": 2, "Depth": 2, "CrossSuite": "FALSE"},
+                          "thorough": {"K": 4, "Dev": "{}", "MechBound": 99, "MaxL": 2, "Depth": 3, "CrossSuite": "TRUE"}},
                "flip": {"quick": 0, "thorough": 0}},
     "blind": {"module": "MC_blind", "invariants": ["C05", "C06", "C02", "C04", "Refines", "Export"],
-              "consts": {"quick": {"K": 3, "Dev": "{}", "MaxL": 1, "MaxM": 1, "Mode": '"honest"'},
-                         "thorough": {"K": 4, "Dev": "{}", "MaxL": 2, "MaxM": 2, "Mode": '"honest"'}},
+              "consts": {"quick": {"K": 3, "Dev": "{}", "MechBound": 99, "MaxL": 1, "MaxM": 1, "Mode": '"honest"'},
+                         "thorough": {"K": 4, "Dev": "{}", "MechBound": 99, "MaxL": 2, "MaxM": 2, "Mode": '"honest"'}},
               "flip": {"quick": 0, "thorough": 0}},
     "blind_adv": {"module": "MC_blind", "invariants": ["C05", "C06", "C02", "C04", "Refines", "Export"],
-                  "consts": {"quick": {"K": 3, "Dev": "{}", "MaxL": 1, "MaxM": 1, "Mode": '"adv"'},
-                             "thorough": {"K": 4, "Dev": "{}", "MaxL": 2, "MaxM": 2, "Mode": '"adv"'}},
+                  "consts": {"quick": {"K": 3, "Dev": "{}", "MechBound": 99, "MaxL": 1, "MaxM": 1, "Mode": '"adv"'},
+                             "thorough": {"K": 4, "Dev": "{}", "MechBound": 99, "MaxL": 2, "MaxM": 2, "Mode": '"adv"'}},
                   "flip": {"quick": 41, "thorough": 3}},
+    "shape_sig": {"module": "MC_shape", "invariants": ["C01", "C02", "C12", "Refines", "Export"],
+                  "consts": {"quick": {"K": 2, "Dev": "{}", "MechBound": 4, "Ls": "{0, 1, 2, 31, 32, 33, 128, 129, 257}", "Ms": "{}", "Fam": '"sig"'},
+                             "thorough": {"K": 2, "Dev": "{}", "MechBound": 4, "Ls": "{0, 1, 2, 3, 31, 32, 33, 64, 127, 128, 129, 255, 256, 257, 1000, 2000}", "Ms": "{}", "Fam": '"sig"'}},
+                  "flip": {"quick": 0, "thorough": 0}, "chunks": "7"},
+    "shape_proof": {"module": "MC_shape", "invariants": ["C03", "C04", "Refines", "Export"],
+                    "consts": {"quick": {"K": 2, "Dev": "{}", "MechBound": 4, "Ls": "{0, 1, 2, 32, 33, 129, 257}", "Ms": "{}", "Fam": '"proof"'},
+                               "thorough": {"K": 2, "Dev": "{}", "MechBound": 4, "Ls": "{0, 1, 2, 3, 31, 32, 33, 64, 127, 128, 129, 255, 256, 257, 1000}", "Ms": "{}", "Fam": '"proof"'}},
+                    "flip": {"quick": 0, "thorough": 0}, "chunks": "7"},
+    "shape_blind": {"module": "MC_shape", "invariants": ["C05", "C06", "Refines", "Export"],
+                    "consts": {"quick": {"K": 2, "Dev": "{}", "MechBound": 4, "Ls": "{0, 1, 33}", "Ms": "{0, 1, 33}", "Fam": '"blind"'},
+                               "thorough": {"K": 2, "Dev": "{}", "MechBound": 4, "Ls": "{0, 1, 2, 32, 33, 129, 257}", "Ms": "{0, 1, 2, 16, 33, 129}", "Fam": '"blind"'}},
+                    "flip": {"quick": 0, "thorough": 0}, "chunks": "7"},
 }
 
 HOOK_COMMITS = ["5b39d5a"]
 
+# implementation -> specification: trace families (driver of record.rs) and sizes per tier
+TRACES = {
+    "sig":   {"quick": (3, 300, 300), "thorough": (24, 400, 2000)},
+    "proof": {"quick": (3, 300, 300), "thorough": (24, 400, 1000)},
+    "blind": {"quick": (3, 300, 64), "thorough": (24, 400, 300)},
+    "all":   {"quick": (3, 300, 300), "thorough": (24, 400, 2000)},
+}
+
 MC_TEXT = "TLC checks the invariant(s) exhaustively on the bounded slice(s) listed in the evidence (constants recorded there), in the toy interpretation of the mechanical transcription of the operations (Mech) against the provenance-level statement of the property (Prov); every behaviour of the slice is exported and replayed into the real library under several concretisations of its abstract octets, where decisions, lengths and (for deterministic operations) octets must agree with the specification; "
 
 PROPS = {
-    "C01": {"slices": ["sig"], "tally": ["C01"], "title": "BBS signature completeness",
+    "C01": {"slices": ["sig", "shape_sig"], "traces": "sig", "tally": ["C01"], "title": "BBS signature completeness",
             "level_text": MC_TEXT + "slice `sig`: 2 suites, headers absent/empty/non-empty, every message vector over 3 atoms (one the empty message) up to MaxL, absent-vs-empty presentations, encode/decode round trip."},
-    "C02": {"slices": ["sig"], "tally": ["C02"], "title": "BBS signature binding",
+    "C02": {"slices": ["sig", "shape_sig"], "traces": "sig", "tally": ["C02"], "title": "BBS signature binding",
             "level_text": MC_TEXT + "slice `sig`: every single edit of the message vector (change, insert, delete, swap), every other header, the other key, the other suite, the blind interface, and tampered encodings - replayed with single-bit flips of the affected fields of the 80 octets (all 640 bits in the thorough tier)."},
-    "C03": {"slices": ["proof"], "tally": ["C03"], "title": "BBS proof completeness",
+    "C03": {"slices": ["proof", "shape_proof"], "traces": "proof", "tally": ["C03"], "title": "BBS proof completeness",
             "level_text": MC_TEXT + "slice `proof`: every message vector up to MaxL, EVERY disclosure subset (also as unsorted / duplicated / absent index lists), header and presentation header absent/empty/non-empty, round trip; the proof length 272 + 32 U is checked on the real proofs, which are produced with production randomness and recomputed from the recorded draws."},
-    "C04": {"slices": ["proof_adv"], "tally": ["C04"], "title": "BBS proof soundness",
+    "C04": {"slices": ["proof_adv", "shape_proof"], "traces": "proof", "tally": ["C04"], "title": "BBS proof soundness",
             "level_text": MC_TEXT + "slice `proof_adv`: every single edit of the verifier's statement (message, index, pair added/removed, lists of different lengths, duplicate index with forged message, header, presentation header, key, suite, interface), every tampered field and +-1 scalar of the encoding (with bit flips), and the attacker's family of proofs assembled from public data (identity / multiples of the verifier's Bv / unrelated points, responses solved) through from_bytes and through serde."},
-    "C05": {"slices": ["blind"], "tally": ["C05"], "title": "Blind BBS completeness",
+    "C05": {"slices": ["blind", "shape_blind"], "traces": "blind", "tally": ["C05"], "title": "Blind BBS completeness",
             "level_text": MC_TEXT + "slice `blind`: (L, M) up to the bounds, with and without commitment (and commitment to zero messages), ALL pairs of disclosure choices, absent/empty presentations, round trips; blind signature octets equal the specification's."},
-    "C06": {"slices": ["blind_adv"], "tally": ["C06"], "title": "Blind BBS soundness",
+    "C06": {"slices": ["blind_adv", "shape_blind"], "traces": "blind", "tally": ["C06"], "title": "Blind BBS soundness",
             "level_text": MC_TEXT + "slice `blind_adv`: tampered / truncated / extended / cross-suite commitments shown to the signer (with bit flips of the commitment octets), every single edit of the inputs of verify_blind_sign and blind_proof_verify including L +- 1, aliasing of committed and signer messages, duplicate indexes with forged messages, plain-interface verification."},
-    "C12": {"slices": ["update"], "tally": ["C12", "C02", "C01"], "title": "Signature update over any history",
+    "C12": {"slices": ["update", "shape_sig"], "traces": "sig", "tally": ["C12", "C02", "C01"], "title": "Signature update over any history",
             "level_text": MC_TEXT + "slice `update`: every history of up to Depth updates at every position with every new value, with correct and wrong old values, out-of-range positions, then verification against the intended current vector and every earlier vector; updated signature octets equal the reference's B(msgs)/(sk+e)."},
 }
 
@@ -226,10 +246,75 @@ def run_slice(name, tier, prop):
 
 def replay(cases, tier, prop, name, flip):
     rep = os.path.join(BUILD, "rep_%s_%s_%s.json" % (prop, name, tier))
-    chunks = "1,32,255,256" if tier == "quick" else "1,31,32,33,255,256,257,1024"
+    chunks = SLICES[name].get("chunks") or ("1,32,255,256" if tier == "quick" else "1,31,32,33,255,256,257,1024")
     sh([ZKV, "replay", cases, rep, "--flip-stride", str(flip), "--threads", "16", "--chunks", chunks],
        env={"ZKV_LAYOUTS": LAYOUTS, "VERIF_SEED": str(seed())}, timeout=6000)
     return json.load(open(rep))
+
+
+TRACE_CFG = """CONSTANTS
+  K = 2
+  Dev = {}
+  MechBound = 6
+INIT TraceInit
+NEXT TraceNext
+INVARIANTS C01 C02 C03 C04 C05 C06 C12 Refines
+POSTCONDITION TraceAccepted
+CHECK_DEADLOCK FALSE
+"""
+
+# the property a rejected event belongs to: what the library answered decides the direction
+def trace_prop(ev):
+    op, res = ev.get("op"), ev.get("res")
+    if res == "Panic":
+        return "C08"
+    compl = {"Sign": "C01", "Verify": "C01", "RoundTrip": "C09", "Update": "C12", "ProofGen": "C03", "ProofVerify": "C03",
+             "Commit": "C05", "BlindSign": "C05", "VerifyBlind": "C05", "BlindProofGen": "C05", "BlindProofVerify": "C05", "KeyGen": "C01", "Tamper": "C01"}
+    sound = {"Verify": "C02", "ProofVerify": "C04", "BlindSign": "C06", "VerifyBlind": "C06", "BlindProofVerify": "C06", "Update": "C12",
+             "Sign": "C01", "ProofGen": "C03", "Commit": "C05", "BlindProofGen": "C05"}
+    # the library said Ok where the specification did not -> soundness; otherwise completeness
+    return sound.get(op, "C10") if res == "Ok" else compl.get(op, "C10")
+
+
+def validate_trace(path, name):
+    """TLC validates one recorded trace file against Trace_Api; returns (accepted, events, matched, first_unmatched, error)"""
+    rc, out = tlc("Trace_Api", TRACE_CFG, name, workers=1, extra_env={"TRACE": path},
+                  java_opts="-Xss512m -Dtlc2.tool.queue.IStateQueue=StateDeque", timeout=3000)
+    events = sum(1 for _ in open(path))
+    m = re.search(r'<<"TRACE-REJECTED", "events", (\d+), "matched", (\d+), "first unmatched", "(.*)">>', out)
+    if m:
+        ev = json.loads(json.loads('"' + m.group(3) + '"'))
+        return False, events, int(m.group(2)), ev, None
+    if "Model checking completed. No error has been found." in out:
+        return True, events, events, None, None
+    inv = re.search(r"Invariant (\w+) is violated", out)
+    if inv:
+        return False, events, 0, None, "specification-level: invariant %s violated while validating a trace" % inv.group(1)
+    return False, events, 0, None, "TLC failed on trace: " + out[-1500:]
+
+
+def run_traces(family, tier, prop):
+    runs, events, maxl = TRACES[family][tier]
+    res = {"family": family, "files": 0, "events": 0, "accepted": 0, "rejections": []}
+    per_file = 6 if tier == "thorough" else 3
+    nfiles = (runs + per_file - 1) // per_file
+    for k in range(nfiles):
+        path = os.path.join(BUILD, "trace_%s_%s_%d.ndjson" % (prop, tier, k))
+        sh([ZKV, "record", path, "--runs", str(min(per_file, runs - k * per_file)), "--events", str(events), "--max-l", str(maxl),
+            "--salt", str(k), "--family", family], env={"ZKV_LAYOUTS": LAYOUTS, "VERIF_SEED": str(seed())}, timeout=3000)
+        ok, n, matched, ev, err = validate_trace(path, "trace_%s_%s_%d" % (prop, tier, k))
+        res["files"] += 1
+        res["events"] += n
+        if err:
+            raise ToolError(err)
+        if ok:
+            res["accepted"] += min(per_file, runs - k * per_file)      # every Reset-delimited run is one trace
+        else:
+            res["rejections"].append({"file": path, "matched": matched, "event": ev, "property": trace_prop(ev)})
+        if k == 0:
+            with open(path) as f:
+                res["sample"] = [json.loads(next(f)) for _ in range(6)]
+    return res
 
 
 def write_replay_file(prop, mm):
@@ -278,15 +363,26 @@ def run_property(prop, tier):
         for mm in rep["mismatches"]:
             if mm["property"] in spec["tally"]:
                 violations.append(mm)
+    traces = None
+    if spec.get("traces"):
+        traces = run_traces(spec["traces"], tier, prop)
+        for rj in traces["rejections"]:
+            violations.append({"property": prop, "what": "recorded trace rejected by the specification at event %d (%s): the library answered %s" % (
+                rj["matched"] + 1, rj["event"].get("op"), rj["event"].get("res")), "expected": "the specification's decision", "observed": rj["event"].get("res"),
+                "trace": rj["file"], "event": rj["event"], "attributed_to": rj["property"]})
+        if traces.get("sample"):
+            samples.append({"trace_prefix": traces["sample"]})
     ev = {
         "property_id": prop, "tier": tier, "seed": seed(), "level": "model_checking",
         "coverage": {
             "states": tot_states, "transitions": tot_trans,
-            "traces_validated_against_impl": 0,
+            "traces_validated_against_impl": (traces or {}).get("accepted", 0),
+            "trace_events_validated": (traces or {}).get("events", 0),
+            "traces": {k: v for k, v in (traces or {}).items() if k != "sample"},
             "cases_replayed_into_impl": distinct,
             "evaluations": evaluations, "distinct_nontrivial": distinct,
             "rule": "every behaviour of the bounded TLC slice(s) is one case; each is executed against the real library under one or more concretisations of its abstract octets; a case is distinct by its action sequence and arguments, non-trivial because it contains at least one producing and one deciding call",
-            "samples": samples[:3], "slices": slices_ev, "fixtures_reproduced": fx, "drift": drift,
+            "samples": samples[:4], "slices": slices_ev, "fixtures_reproduced": fx, "drift": drift,
             "exhaustive": True,
         },
         "assumptions": [
